@@ -474,7 +474,7 @@ pub fn run(ctx: &Ctx) {
     });
     // (b)
     let known_open = |sig: &str| ctx.is_known_open(sig);
-    let n = ctx.tier.pick(3_000u64, 100_000u64);
+    let n = ctx.tier.pick(20_000u64, 200_000u64);
     let mut weights = default_weights();
     for x in weights.iter_mut() {
         if matches!(x.0, op::SET_DATA | op::SET_ATTR | op::COPY | op::COPY_AT | op::CREATE_AT | op::NAMED_AT | op::MOVE) {
